@@ -51,6 +51,7 @@ def model_configs(tier):
             ("shape", dict(MaxFiles=3), False),
             ("shape4", dict(MaxFiles=4, MaxLines=2), False),
             ("chain", dict(MaxFiles=8, MaxFan=1, MaxLines=2, MaxBack=0), False),
+            ("deepfan", dict(MaxFiles=8, MaxFan=2, MaxLines=2, Wants={5}, MaxBack=0, MaxMissing=0), False),
             ("resolve", dict(MaxFiles=3, MaxLines=2, Dirs={0, 1}, Styles={"rel", "abs"},
                              Entries={"file", "string"}, MaxBack=0), False),
             ("live_chdir", dict(MaxFiles=3, MaxLines=2, MaxFan=1, MaxMissing=0, Dirs={0, 1}, EnvChdir=True), True),
@@ -59,8 +60,9 @@ def model_configs(tier):
     return [
         ("shape", dict(MaxFiles=5), False),
         ("chain", dict(MaxFiles=8, MaxFan=1, MaxLines=3), False),
+        ("deepfan", dict(MaxFiles=8, MaxFan=2, MaxLines=2, Wants={5}, MaxMissing=0), False),
         ("resolve", dict(MaxFiles=3, MaxLines=3, Dirs={0, 1}, Styles={"rel", "abs"},
-                         Entries={"file", "string"}), False),
+                         Entries={"file", "string"}, MaxBack=0), False),
         ("live_chdir", dict(MaxFiles=3, MaxLines=3, Dirs={0, 1}, EnvChdir=True), True),
         ("live_chain", dict(MaxFiles=8, MaxFan=1, MaxLines=2, MaxMissing=0), True),
     ]
@@ -564,13 +566,13 @@ def check_keep(case, tmp, loads0, public):
         kind, d = classify(fn)
         info = {"api": api, "keep_text": text.replace(tmp, PLACE)}
         if kind != "ok":
-            found.append(("C15|noexpand|%s|raised|%s" % (culprit(), type(d).__name__),
+            found.append(("C15|noexpand|%s|directive-not-kept" % culprit(),
                           "expand_includes=False: %s raised %s on a document with INCLUDE directives: %s" % (
                               api, type(d).__name__, str(d)[:100].replace(tmp, PLACE)), info))
             continue
         got = collect_includes(d, [])
         if not same(got):
-            found.append(("C15|noexpand|%s|include-list-differs" % culprit(),
+            found.append(("C15|noexpand|%s|directive-not-kept" % culprit(),
                           "expand_includes=False: include values %s, written names %s" % (
                               [x.replace(tmp, PLACE) for x in got][:8], keep["names"][:8]), info))
             continue
